@@ -291,9 +291,22 @@ def _surviving(lay, impl):
     return [(si, mi, m) for si, s in enumerate(lay["svcs"]) for mi, m in enumerate(s["mounts"]) if (si, mi) not in dropped]
 
 
+def _trash_lost_agree(impl, model):
+    """the implementation's trash list and lost flag are among the outcomes the model allows"""
+    si, sm = split_result(impl), split_result(model)
+    if si is None or sm is None or len(si[1]) != 1 or si[0] != sm[0]:
+        return False
+    try:
+        key = lambda o: (o["lost"], tuple(sorted((i, json.dumps(e, sort_keys=True)) for i, e in o["T"])))
+        return key(parse_outcome(si[1][0])) in {key(parse_outcome(o)) for o in sm[1]}
+    except Exception:
+        return False
+
+
 def finding_of(case, impl, why, model=None):
     """A failure is attributed to a known finding only if (a) it has that finding's shape and (b) the
-    implementation's output on this case is one the model of the unchanged code allows (the model is
+    implementation's trash list and lost flag on this case are among those the model of the unchanged
+    code allows (the model is
     proved to have exactly these defects: C05_trash_safe_fails_F1/_F2, C05_lost_full_fails); when
     the model was not run on the case (failing-input search) only the shape is used.
     The shapes are evaluated on the mounts that survive cleanupMounts (read from the implementation's
@@ -309,7 +322,7 @@ def finding_of(case, impl, why, model=None):
     lay = parse_case(case)
     if lay is None:
         return None
-    if model is not None and not compare(case, impl, model):
+    if model is not None and not _trash_lost_agree(impl, model):
         return None
     tag = why.split(":", 1)[0]
     sv = _surviving(lay, impl)
@@ -591,14 +604,15 @@ def generate(rng, tier):
         for sp in rng.sample(specs4, min(len(specs4), 700)):
             cases.append(_spec_case(rng, sp))
     else:
-        for _ in range(120000):
+        for _ in range(150000):
             cases.append(_random_case(rng, 16))
-        # exhaustive over structure x sharing x classes x replica subset x desired for <= 4 mounts,
-        # every 7th/61st combination (offset by the seed) for 5 and 6 mounts
+        # exhaustive over structure x sharing x classes x replica subset x desired for <= 5 mounts
+        # (454 502 combinations), every 3rd combination (offset by the seed) for 6 mounts (1 217 360);
+        # flags, replication, mtimes and the block hash are drawn at random for each combination
         off = rng.randrange(1 << 30)
         for n, sp in enumerate(exhaustive_specs(6)):
             M = sum(sp[0])
-            if M <= 4 or (M == 5 and (n + off) % 7 == 0) or (M == 6 and (n + off) % 61 == 0):
+            if M <= 5 or (n + off) % 3 == 0:
                 cases.append(_spec_case(rng, sp))
     nbad = 60 if tier == "quick" else 600
     for _ in range(nbad):
